@@ -19,6 +19,8 @@ from specs import isa
 
 
 class Stack(BaseNetworkStack):
+    _pyvc_ghost = True          # environment stub: accepts symbolic arguments
+
     def __init__(self):
         self.requests = []
 
@@ -177,6 +179,7 @@ def symbolic_app_state(ctx, ex, app, tag, n_arrays=2):
             for (pa, _) in ents:
                 ctx.assume(ctx.not_(ctx.eq(a, pa)))
             ln = ctx.int(f"{tag}len{j}", 0, None)
+            ctx.prefer(ctx.le(ln, 50))
             L = M.SymList(f"{tag}arr{j}", length=ln.t)
             for k in range(PIN_ARR):
                 v = ctx.optint(f"{tag}arr{j}_{k}")
@@ -263,6 +266,7 @@ def symbolic_qubit_state(ctx, ex, apps, tag="q"):
         ums = {}
         for a in apps:
             ln = ctx.int(f"{tag}um{a}_len", 0, None)
+            ctx.prefer(ctx.le(ln, PIN_UM))
             L = M.SymList(f"{tag}UM{a}", length=ln.t)
             for k in range(PIN_UM):
                 v = ctx.optint(f"{tag}um{a}_{k}")
